@@ -27,7 +27,8 @@ func (Driver) Info() core.Info {
 			"(returns a generated conforming or non-conforming value | returns its first argument | errors | panics | returns NilVal); optional RefineResult (NotNull, or NotNull plus a number range / " +
 			"collection length range) that the Impl honours; 1 in 8 functions obtained through WithNewDescriptions; " +
 			"argument lists of length 0..6 mixing conforming, non-conforming, null, unknown (also refined), DynamicVal, null-of-dynamic and top-level / deeply marked values. " +
-			"Each case runs Call, ReturnTypeForValues, ReturnType and Unpredictable(f).Call with spies in both callbacks. Plus a fixed corpus and two seed-independent enumerations " +
+			"Each case runs Call, ReturnTypeForValues, ReturnType and Unpredictable(f).Call with spies in both callbacks. Plus two-function histories: two generated specifications declared over ONE table of parameters " +
+			"(Params = table[:k] with a variadic parameter, and table[:n], n > k), the shorter called first (mostly with variadic arguments), then the longer, each judged by its own declaration, Params() of both compared before and after. Plus a fixed corpus and two seed-independent enumerations " +
 			"(one focus parameter: 4 spec shapes x 3 constraints x 16 flag combinations x 17 argument classes x 9 callback scripts; two neighbouring parameters: 16x16 flag combinations x 8x8 argument classes x 2 scripts). " +
 			"distinct = hash of (spec, arguments); non-trivial = argument count accepted and at least one argument, so that parameter contracts are in play",
 		Assumptions: []string{
@@ -262,6 +263,14 @@ func (Driver) Run(c *core.Ctx) {
 		s := genScript(r)
 		args, classes := genArgs(r, s)
 		runCase(c, i, s, args, classes, "generated")
+	}
+	// histories over two specifications declared from one table of parameters (shared.go)
+	for j := int64(0); j < n/16; j++ {
+		idx := 5_000_000_000 + j
+		if !c.Want(idx) {
+			continue
+		}
+		runSharedTable(c, idx, c.RNG(idx))
 	}
 	if c.Batch == 0 {
 		runCorpus(c, 1_000_000_000)
